@@ -156,21 +156,12 @@ Proof.
     intros Hin. apply Hout. apply in_map_iff in Hin as (r & <- & Hr). apply in_map. now apply HE.
 Qed.
 
-(* ================================================================== the pipeline *)
+(* ================================================================== lists *)
 
 Lemma nth_perm {A} (t1 t2 : list (list A)) :
   Forall2 (@Permutation A) t1 t2 -> forall k, Permutation (nth k t1 []) (nth k t2 []).
 Proof.
   induction 1 as [|a b t1 t2 Hab _ IH]; intros [|k]; simpl; auto.
-Qed.
-
-Lemma phase_reqs_members e1 e2 t1 t2 ph :
-  Permutation e1 e2 -> Forall2 (@Permutation req) t1 t2 ->
-  forall r, In r (phase_reqs e1 t1 ph) -> In r (phase_reqs e2 t2 ph).
-Proof.
-  intros He Ht r. destruct ph as [k|k]; simpl.
-  - apply Permutation_in. now apply Permutation_flat_map.
-  - apply Permutation_in. now apply nth_perm.
 Qed.
 
 Lemma Forall2_perm_sym {A} (t1 t2 : list (list A)) :
@@ -183,55 +174,27 @@ Proof.
   intros H. revert t3. induction H; intros t3 H3; inversion H3; subst; constructor; eauto using perm_trans.
 Qed.
 
-Lemma registration_members pl e1 e2 t1 t2 :
-  Permutation e1 e2 -> Forall2 (@Permutation req) t1 t2 ->
-  forall r, In r (registration_of pl e1 t1) <-> In r (registration_of pl e2 t2).
-Proof.
-  intros He Ht r. unfold registration_of. rewrite !in_flat_map.
-  split; intros (ph & Hph & Hr); exists ph; (split; [assumption|]).
-  - eapply phase_reqs_members; eassumption.
-  - eapply phase_reqs_members; [apply Permutation_sym, He|apply Forall2_perm_sym, Ht|assumption].
-Qed.
-
-Lemma nth_in_concat {A} (l : list (list A)) k x : In x (nth k l []) -> In x (concat l).
-Proof.
-  revert k. induction l as [|a l IH]; intros [|k]; simpl; try tauto; intros H; apply in_or_app; eauto.
-Qed.
-
-Lemma registration_in_all P pl r :
-  In r (registration_of pl (p_files P) (p_sets P)) -> In r (all_reqs P).
-Proof.
-  unfold registration_of, all_reqs. rewrite in_flat_map. intros ([k|k] & _ & Hr); simpl in Hr.
-  - apply in_or_app. left. apply in_flat_map in Hr as (f & Hf & Hr). apply in_flat_map.
-    exists f. split; [assumption|]. unfold file_reqs. eapply nth_in_concat. exact Hr.
-  - apply in_or_app. right. eapply nth_in_concat. exact Hr.
-Qed.
-
 Lemma enum_sets_perm sets sigma : perms_ok sets sigma -> Forall2 (@Permutation req) (enum_sets sets sigma) sets.
 Proof.
   unfold perms_ok, enum_sets. induction 1 as [|l pi sets sigma H _ IH]; simpl; constructor; auto.
   now apply enumerate_perm.
 Qed.
 
-(* the identifiers of a clash-free project do not depend on the order in which the files are
-   enumerated nor on the order within the set-ordered phases — for any sequence of phases *)
-Lemma idents_enum_invariant_of pl P e1 e2 t1 t2 :
-  no_clashb P = true ->
-  Permutation e1 (p_files P) -> Permutation e2 (p_files P) ->
-  Forall2 (@Permutation req) t1 (p_sets P) -> Forall2 (@Permutation req) t2 (p_sets P) ->
-  forall id, ident_in (fst (run init (registration_of pl e1 t1))) id
-           = ident_in (fst (run init (registration_of pl e2 t2))) id.
+
+Lemma nth_in_concat {A} (l : list (list A)) k x : In x (nth k l []) -> In x (concat l).
 Proof.
-  intros HN E1 E2 T1 T2. apply noclash_order_irrelevant.
-  - apply (noclashP_incl (all_reqs P)); [now apply no_clash_list_sound|].
-    intros r Hr. apply (registration_in_all P pl).
-    now apply (registration_members pl e1 (p_files P) t1 (p_sets P)).
-  - intros r. apply registration_members.
-    + eapply perm_trans; [exact E1|now apply Permutation_sym].
-    + eapply Forall2_perm_trans; [exact T1|now apply Forall2_perm_sym].
+  revert k. induction l as [|a l IH]; intros [|k]; simpl; try tauto; intros H; apply in_or_app; eauto.
 Qed.
 
-(* ------------------------------------------------------------------ sorted enumeration *)
+Lemma nth_map_seq {A} (f : nat -> list A) n k : nth k (map f (seq 0 n)) [] = if k <? n then f k else [].
+Proof.
+  destruct (k <? n) eqn:E.
+  - apply Nat.ltb_lt in E. rewrite (nth_indep _ [] (f 0)) by (now rewrite map_length, seq_length).
+    rewrite map_nth, seq_nth by assumption. reflexivity.
+  - apply Nat.ltb_ge in E. apply nth_overflow. now rewrite map_length, seq_length.
+Qed.
+
+(* ================================================================== sorted enumeration *)
 
 Lemma file_leb_total : total file_leb.
 Proof. intros a b. apply path_leb_total. Qed.
@@ -259,115 +222,118 @@ Proof.
     apply (NoDup_map_inj_in f_path files); auto. now apply path_leb_antisym.
 Qed.
 
-Lemma sorted_enum_perm files pi :
-  is_perm pi (length files) -> Permutation (isort file_leb (enumerate files pi)) files.
+
+(* ================================================================== requests that change nothing *)
+
+Definition has_item (st : nstate) (r : req) : Prop := In (r_id r) (map i_id (items st)).
+
+Lemma get_name_mono st r it : In it (items st) -> In it (items (fst (get_name st r))).
 Proof.
-  intros H. eapply perm_trans; [apply Permutation_sym, isort_perm|now apply enumerate_perm].
+  intros H. unfold get_name. destruct (find_item (r_id r) (items st)); simpl; auto.
 Qed.
 
-(* MAIN THEOREM for the by-file phases (since 80d6c91): the order in which the set of source files
-   is iterated does not matter, whether names compete or not *)
-Theorem file_order_irrelevant : forall P pi1 pi2 sigma,
-  NoDup (map f_path (p_files P)) ->
-  is_perm pi1 (length (p_files P)) -> is_perm pi2 (length (p_files P)) ->
-  idents P pi1 sigma = idents P pi2 sigma.
+Lemma get_name_has st r : has_item (fst (get_name st r)) r.
 Proof.
-  intros P pi1 pi2 sigma ND H1 H2. unfold idents.
-  now rewrite (sorted_enumeration_canonical (p_files P) pi1 pi2).
+  unfold has_item, get_name. destruct (find_item (r_id r) (items st)) as [it|] eqn:F; simpl.
+  - apply find_item_some in F as [F1 F2]. rewrite <- F2. now apply in_map.
+  - now left.
 Qed.
 
-(* the same for any total, transitive order that separates the files *)
-Theorem sorted_is_canonical_gen : forall (leb : pfile -> pfile -> bool) P pi1 pi2 sets,
-  total leb -> transitive leb -> antisym_on leb (p_files P) ->
-  is_perm pi1 (length (p_files P)) -> is_perm pi2 (length (p_files P)) ->
-  idents_enum P (isort leb (enumerate (p_files P) pi1)) sets
-  = idents_enum P (isort leb (enumerate (p_files P) pi2)) sets.
+Lemma get_name_noop st r : has_item st r -> fst (get_name st r) = st.
 Proof.
-  intros leb P pi1 pi2 sets T R AS H1 H2. f_equal.
-  apply isort_perm_invariant; auto.
-  - eapply perm_trans; [now apply enumerate_perm|now apply Permutation_sym, enumerate_perm].
-  - intros a b Ha Hb.
-    apply AS; [exact (Permutation_in _ (enumerate_perm (p_files P) pi1 H1) Ha)
-              |exact (Permutation_in _ (enumerate_perm (p_files P) pi1 H1) Hb)].
+  intros H. unfold get_name. destruct (find_item_in _ _ H) as (it & F). now rewrite F.
 Qed.
 
-(* clash-free projects: nothing matters (any pipeline, sorted or not) *)
-Theorem perm_invariant_noclash : forall P pi1 pi2 sigma1 sigma2,
-  no_clashb P = true ->
-  is_perm pi1 (length (p_files P)) -> is_perm pi2 (length (p_files P)) ->
-  perms_ok (p_sets P) sigma1 -> perms_ok (p_sets P) sigma2 ->
-  idents P pi1 sigma1 = idents P pi2 sigma2.
+Lemma run_cons st r rs : fst (run st (r :: rs)) = fst (run (fst (get_name st r)) rs).
+Proof. simpl. destruct (get_name st r) as [st1 n]. simpl. destruct (run st1 rs) as [st2 ns]. reflexivity. Qed.
+
+Lemma run_app st a b : fst (run st (a ++ b)) = fst (run (fst (run st a)) b).
 Proof.
-  intros P pi1 pi2 s1 s2 HN H1 H2 S1 S2. unfold idents, idents_enum. apply map_ext. intros id. f_equal.
-  unfold final_state, registration.
-  apply (idents_enum_invariant_of pipeline P); auto using sorted_enum_perm, enum_sets_perm.
+  revert st. induction a as [|r a IH]; intros st; [reflexivity|].
+  rewrite <- app_comm_cons, !run_cons. apply IH.
 Qed.
 
-(* ------------------------------------------------------------------ the project's location *)
-
-Lemma lex_leb_prefix {A} (lt : A -> A -> bool) (irr : forall a, lt a a = false) p a b :
-  lex_leb lt (p ++ a) (p ++ b) = lex_leb lt a b.
-Proof. induction p as [|x p IH]; simpl; [reflexivity|]. now rewrite irr. Qed.
-
-Lemma file_leb_relocate root a b :
-  file_leb (relocate_file root a) (relocate_file root b) = file_leb a b.
+Lemma run_mono st rs it : In it (items st) -> In it (items (fst (run st rs))).
 Proof.
-  unfold file_leb, relocate_file, path_leb. simpl.
-  apply lex_leb_prefix. exact (st_irrefl _ str_ltb_strict).
+  revert st. induction rs as [|r rs IH]; intros st H; [exact H|].
+  rewrite run_cons. apply IH. now apply get_name_mono.
 Qed.
 
-Lemma insert_map {A B} (f : A -> B) (leb : A -> A -> bool) (leb' : B -> B -> bool) :
-  (forall a b, leb' (f a) (f b) = leb a b) ->
-  forall x l, insert leb' (f x) (map f l) = map f (insert leb x l).
+Lemma has_item_mono st rs r : has_item st r -> has_item (fst (run st rs)) r.
 Proof.
-  intros H x l. induction l as [|y l IH]; simpl; [reflexivity|].
-  rewrite H. destruct (leb x y); simpl; [reflexivity|]. now rewrite IH.
+  unfold has_item. intros H. apply in_map_iff in H as (it & E & Hit).
+  rewrite <- E. apply in_map. now apply run_mono.
 Qed.
 
-Lemma isort_map {A B} (f : A -> B) (leb : A -> A -> bool) (leb' : B -> B -> bool) :
-  (forall a b, leb' (f a) (f b) = leb a b) ->
-  forall l, isort leb' (map f l) = map f (isort leb l).
+Lemma run_has st rs r : In r rs -> has_item (fst (run st rs)) r.
 Proof.
-  intros H l. induction l as [|x l IH]; simpl; [reflexivity|].
-  rewrite IH. now apply insert_map.
+  revert st. induction rs as [|x rs IH]; intros st H; [destruct H|].
+  destruct H as [<-|H]; rewrite run_cons.
+  - apply has_item_mono. apply get_name_has.
+  - now apply IH.
 Qed.
 
-Lemma enumerate_map {A B} (f : A -> B) (l : list A) pi : enumerate (map f l) pi = map f (enumerate l pi).
+(* asking again for entities that have their identifier leaves the selector as it is *)
+Lemma run_noop st T : (forall r, In r T -> has_item st r) -> fst (run st T) = st.
 Proof.
-  unfold enumerate. induction pi as [|i pi IH]; simpl; [reflexivity|].
-  rewrite map_app, IH. f_equal. rewrite nth_error_map. now destruct (nth_error l i).
+  induction T as [|r T IH]; intros H; [reflexivity|].
+  rewrite run_cons, get_name_noop by (apply H; now left). apply IH. intros x Hx. apply H. now right.
 Qed.
 
-Lemma flat_map_map {A B C} (f : A -> B) (g : B -> list C) l : flat_map g (map f l) = flat_map (fun x => g (f x)) l.
-Proof. induction l as [|x l IH]; simpl; [reflexivity|]. now rewrite IH. Qed.
+(* ================================================================== the id-set phases *)
 
-Lemma registration_relocate pl root enum sets :
-  registration_of pl (map (relocate_file root) enum) sets = registration_of pl enum sets.
+Lemma seen_before_incl pl enum k : forall acc r, In r acc -> In r (seen_before pl enum k acc).
 Proof.
-  unfold registration_of. apply flat_map_ext. intros [k|k]; simpl; [|reflexivity].
-  rewrite flat_map_map. reflexivity.
+  induction pl as [|[j|j|j] pl IH]; intros acc r H; simpl; auto.
+  - apply IH. apply in_or_app. now left.
+  - destruct (Nat.eqb j k); auto.
 Qed.
 
-Lemma all_reqs_relocate root P : all_reqs (relocate root P) = all_reqs P.
-Proof. unfold all_reqs, relocate. simpl. now rewrite flat_map_map. Qed.
-
-(* moving the whole project (all source files below one root) changes nothing *)
-Theorem location_irrelevant : forall root P pi sigma,
-  idents (relocate root P) pi sigma = idents P pi sigma.
+(* whatever the order (and multiplicity) in which the id-set phases ask — as long as they ask for
+   what earlier by-file phases have asked for — the selector ends in the same state;
+   for any sequence of phases, any enumeration, any fixed sequences *)
+Lemma idset_irrelevant_of : forall pl enum fixed t1 t2 acc st,
+  (forall r, In r acc -> has_item st r) ->
+  (forall k r, In r (nth k t1 []) -> In r (seen_before pl enum k acc)) ->
+  (forall k r, In r (nth k t2 []) -> In r (seen_before pl enum k acc)) ->
+  fst (run st (registration_of pl enum fixed t1)) = fst (run st (registration_of pl enum fixed t2)).
 Proof.
-  intros root P pi sigma. unfold idents.
-  assert (E : isort file_leb (enumerate (p_files (relocate root P)) pi)
-              = map (relocate_file root) (isort file_leb (enumerate (p_files P) pi))).
-  { unfold relocate. simpl p_files. rewrite enumerate_map.
-    apply isort_map. apply file_leb_relocate. }
-  rewrite E. unfold idents_enum, ent_ids. rewrite all_reqs_relocate.
-  apply map_ext. intros id. f_equal. unfold final_state, registration.
-  rewrite registration_relocate. reflexivity.
+  induction pl as [|ph pl IH]; intros enum fixed t1 t2 acc st HA H1 H2; [reflexivity|].
+  unfold registration_of in *. simpl. rewrite !run_app.
+  destruct ph as [j|j|j]; simpl.
+  - set (S := flat_map (seg j) enum).
+    apply (IH enum fixed t1 t2 (acc ++ S)).
+    + intros r Hr. apply in_app_or in Hr as [Hr|Hr]; [apply has_item_mono; auto|now apply run_has].
+    + intros k r Hr. exact (H1 k r Hr).
+    + intros k r Hr. exact (H2 k r Hr).
+  - assert (N1 : fst (run st (nth j t1 [])) = st).
+    { apply run_noop. intros r Hr. apply HA. specialize (H1 j r Hr). simpl in H1.
+      now rewrite Nat.eqb_refl in H1. }
+    assert (N2 : fst (run st (nth j t2 [])) = st).
+    { apply run_noop. intros r Hr. apply HA. specialize (H2 j r Hr). simpl in H2.
+      now rewrite Nat.eqb_refl in H2. }
+    rewrite N1, N2. apply (IH enum fixed t1 t2 acc); auto.
+    + intros k r Hr. specialize (H1 k r Hr). simpl in H1.
+      destruct (Nat.eqb j k); [now apply seen_before_incl|assumption].
+    + intros k r Hr. specialize (H2 k r Hr). simpl in H2.
+      destruct (Nat.eqb j k); [now apply seen_before_incl|assumption].
+  - apply (IH enum fixed t1 t2 acc).
+    + intros r Hr. apply has_item_mono. auto.
+    + intros k r Hr. exact (H1 k r Hr).
+    + intros k r Hr. exact (H2 k r Hr).
+Qed.
+
+Lemma idsel_members pl enum sel t :
+  Forall2 (@Permutation req) t (idsel_of pl enum sel) ->
+  forall k r, In r (nth k t []) -> In r (seen_before pl enum k []).
+Proof.
+  intros HT k r Hr. apply (Permutation_in _ (nth_perm _ _ HT k)) in Hr.
+  unfold idsel_of in Hr. rewrite nth_map_seq in Hr.
+  destruct (k <? length sel); [|contradiction]. now apply filter_In in Hr as [Hr _].
 Qed.
 
 (* ================================================================== the NameSelector, one key at a time *)
 
-Definition has_key (K : str * str) (r : req) : bool := key_eqb (name_key r) K.
 Definition item_key (it : item) : str * str := (i_dir it, i_base it).
 Definition item_has (K : str * str) (it : item) : bool := key_eqb (item_key it) K.
 
@@ -479,16 +445,6 @@ Proof.
   apply Hid. rewrite <- F2, Fi. now apply in_map.
 Qed.
 
-Lemma filter_flat_map {A B} (p : B -> bool) (f : A -> list B) l :
-  filter p (flat_map f l) = flat_map (fun x => filter p (f x)) l.
-Proof. induction l as [|x l IH]; simpl; [reflexivity|]. now rewrite filter_app, IH. Qed.
-
-Lemma filter_nil_iff {A} (p : A -> bool) l : (forall x, In x l -> p x = false) -> filter p l = [].
-Proof.
-  induction l as [|x l IH]; simpl; intros H; [reflexivity|].
-  rewrite (H x (or_introl eq_refl)). apply IH. auto.
-Qed.
-
 (* soundness of the boolean hypotheses *)
 Lemma consistentb_sound P : consistentb P = true -> consistentP (all_reqs P).
 Proof.
@@ -497,41 +453,139 @@ Proof.
   apply Nat.eqb_eq in E. rewrite E in H. now apply req_eqb_eq.
 Qed.
 
-Definition isolatedP (P : project) : Prop :=
-  forall sr r, In sr (concat (p_sets P)) -> In r (all_reqs P) ->
-    name_key r = name_key sr -> r_id r = r_id sr.
-
-Lemma sets_isolatedb_sound P : sets_isolatedb P = true -> isolatedP P.
-Proof.
-  unfold sets_isolatedb. rewrite forallb_forall. intros H sr r Hs Hr E.
-  specialize (H sr Hs). rewrite forallb_forall in H. specialize (H r Hr).
-  rewrite E, key_eqb_refl in H. now apply Nat.eqb_eq.
-Qed.
-
 Lemma consistentP_incl rs rs' : consistentP rs -> incl rs' rs -> consistentP rs'.
 Proof. intros H I a b Ha Hb. apply H; now apply I. Qed.
 
-(* MAIN THEOREM for the set-ordered phases: their order does not matter as long as no entity that
-   is requested there competes with another one — for any sequence of phases *)
-Lemma set_order_irrelevant_of pl P enum t1 t2 :
-  consistentb P = true -> sets_isolatedb P = true ->
-  Permutation enum (p_files P) ->
-  Forall2 (@Permutation req) t1 (p_sets P) -> Forall2 (@Permutation req) t2 (p_sets P) ->
-  forall id, ident_in (fst (run init (registration_of pl enum t1))) id
-           = ident_in (fst (run init (registration_of pl enum t2))) id.
+
+(* ------------------------------------------------------------------ one key of a whole run *)
+
+Definition filter_file (K : str * str) (f : pfile) : pfile :=
+  {| f_path := f_path f; f_segs := map (filter (has_key K)) (f_segs f) |}.
+
+Lemma nth_map_filter {A} (p : A -> bool) (l : list (list A)) k :
+  nth k (map (filter p) l) [] = filter p (nth k l []).
+Proof. change (@nil A) with (filter p []) at 1. apply map_nth. Qed.
+
+Lemma seg_filter_file K k f : seg k (filter_file K f) = filter (has_key K) (seg k f).
+Proof. unfold seg, filter_file. simpl. apply nth_map_filter. Qed.
+
+Lemma filter_flat_map {A B} (p : B -> bool) (f : A -> list B) l :
+  filter p (flat_map f l) = flat_map (fun x => filter p (f x)) l.
+Proof. induction l as [|x l IH]; simpl; [reflexivity|]. now rewrite filter_app, IH. Qed.
+
+Lemma flat_seg_filter K k enum :
+  flat_map (seg k) (map (filter_file K) enum) = filter (has_key K) (flat_map (seg k) enum).
 Proof.
-  intros HCb HIb HE T1 T2 id.
-  pose proof (consistentb_sound P HCb) as HC. pose proof (sets_isolatedb_sound P HIb) as HI.
-  set (A := registration_of pl enum t1). set (B := registration_of pl enum t2).
+  rewrite filter_flat_map. induction enum as [|f enum IH]; simpl; [reflexivity|].
+  now rewrite seg_filter_file, IH.
+Qed.
+
+Lemma registration_filter K pl enum fixed t :
+  filter (has_key K) (registration_of pl enum fixed t)
+  = registration_of pl (map (filter_file K) enum) (map (filter (has_key K)) fixed)
+                    (map (filter (has_key K)) t).
+Proof.
+  unfold registration_of. rewrite filter_flat_map. apply flat_map_ext. intros [k|k|k]; simpl.
+  - now rewrite flat_seg_filter.
+  - now rewrite nth_map_filter.
+  - now rewrite nth_map_filter.
+Qed.
+
+Lemma seen_before_filter K pl enum k : forall acc,
+  seen_before pl (map (filter_file K) enum) k (filter (has_key K) acc)
+  = filter (has_key K) (seen_before pl enum k acc).
+Proof.
+  induction pl as [|[j|j|j] pl IH]; intros acc; simpl; auto.
+  - rewrite flat_seg_filter, <- filter_app. apply IH.
+  - destruct (Nat.eqb j k); auto.
+Qed.
+
+Lemma key_equiv_members a b r : key_equiv a b -> In r a -> In r b.
+Proof.
+  intros H Hr. assert (X : In r (filter (has_key (name_key r)) a)).
+  { apply filter_In. split; [assumption|apply key_eqb_refl]. }
+  rewrite (H (name_key r)) in X. now apply filter_In in X as [X _].
+Qed.
+
+Lemma key_equiv_sym a b : key_equiv a b -> key_equiv b a.
+Proof. intros H K. symmetry. apply H. Qed.
+
+Lemma fixed_filter_eq K F1 F2 :
+  Forall2 key_equiv F1 F2 -> map (filter (has_key K)) F1 = map (filter (has_key K)) F2.
+Proof. induction 1 as [|a b F1 F2 Hab _ IH]; simpl; [reflexivity|]. now rewrite (Hab K), IH. Qed.
+
+Lemma nth_forall2 {A} (R : list A -> list A -> Prop) (l1 l2 : list (list A)) :
+  R [] [] -> Forall2 R l1 l2 -> forall k, R (nth k l1 []) (nth k l2 []).
+Proof. intros R0. induction 1; intros [|k]; simpl; auto. Qed.
+
+Lemma phase_in_all P enum F t ph r :
+  Permutation enum (p_files P) -> Forall2 key_equiv F (p_sets P) ->
+  (forall k x, In x (nth k t []) -> In x (flat_map file_reqs (p_files P))) ->
+  In r (phase_reqs enum F t ph) -> In r (all_reqs P).
+Proof.
+  intros HE HF HT Hr. unfold all_reqs. destruct ph as [k|k|k]; simpl in Hr.
+  - apply in_or_app. left. apply in_flat_map in Hr as (f & Hf & Hr).
+    apply in_flat_map. exists f. split; [now apply (Permutation_in _ HE)|].
+    unfold file_reqs. eapply nth_in_concat. exact Hr.
+  - apply in_or_app. left. eapply HT. exact Hr.
+  - apply in_or_app. right. apply (nth_in_concat (p_sets P) k).
+    refine (key_equiv_members _ _ r _ Hr).
+    apply (nth_forall2 key_equiv F (p_sets P)); [intros K; reflexivity|assumption].
+Qed.
+
+Lemma seen_before_in_files pl enum k : forall acc r,
+  (forall x, In x acc -> exists f j, In f enum /\ In x (seg j f)) ->
+  In r (seen_before pl enum k acc) -> exists f j, In f enum /\ In r (seg j f).
+Proof.
+  induction pl as [|[j|j|j] pl IH]; intros acc r HA Hr; simpl in Hr; auto.
+  - apply (IH (acc ++ flat_map (seg j) enum)); [|assumption].
+    intros x Hx. apply in_app_or in Hx as [Hx|Hx]; [auto|].
+    apply in_flat_map in Hx as (f & Hf & Hx). eauto.
+  - destruct (Nat.eqb j k); eauto.
+  - eauto.
+Qed.
+
+(* MAIN LEMMA: for any sequence of phases and any enumeration, two runs whose fixed phases agree key
+   by key and whose id-set phases ask (in any order) for selected entities give every entity the
+   same identifier *)
+Lemma run_deterministic_of pl P enum F1 F2 t1 t2 :
+  consistentb P = true -> Permutation enum (p_files P) ->
+  Forall2 key_equiv F1 (p_sets P) -> Forall2 key_equiv F2 (p_sets P) ->
+  Forall2 (@Permutation req) t1 (idsel_of pl enum (p_idsel P)) ->
+  Forall2 (@Permutation req) t2 (idsel_of pl enum (p_idsel P)) ->
+  forall id, ident_in (fst (run init (registration_of pl enum F1 t1))) id
+           = ident_in (fst (run init (registration_of pl enum F2 t2))) id.
+Proof.
+  intros HCb HE HF1 HF2 HT1 HT2 id.
+  pose proof (consistentb_sound P HCb) as HC.
+  set (A := registration_of pl enum F1 t1). set (B := registration_of pl enum F2 t2).
+  assert (TIN : forall t, Forall2 (@Permutation req) t (idsel_of pl enum (p_idsel P)) ->
+                forall k x, In x (nth k t []) -> In x (flat_map file_reqs (p_files P))).
+  { intros t Ht k x Hx. pose proof (idsel_members pl enum (p_idsel P) t Ht k x Hx) as Hs.
+    destruct (seen_before_in_files pl enum k [] x) as (f & j & Hf & Hxj); [intros y []|assumption|].
+    apply in_flat_map. exists f. split; [now apply (Permutation_in _ HE)|].
+    unfold file_reqs. eapply nth_in_concat. exact Hxj. }
   assert (InA : forall r, In r A -> In r (all_reqs P)).
-  { intros r Hr. apply (registration_in_all P pl).
-    now apply (registration_members pl enum (p_files P) t1 (p_sets P)). }
+  { intros r Hr. unfold A, registration_of in Hr. apply in_flat_map in Hr as (ph & _ & Hr).
+    exact (phase_in_all P enum F1 t1 ph r HE HF1 (TIN t1 HT1) Hr). }
   assert (InB : forall r, In r B -> In r (all_reqs P)).
-  { intros r Hr. apply (registration_in_all P pl).
-    now apply (registration_members pl enum (p_files P) t2 (p_sets P)). }
+  { intros r Hr. unfold B, registration_of in Hr. apply in_flat_map in Hr as (ph & _ & Hr).
+    exact (phase_in_all P enum F2 t2 ph r HE HF2 (TIN t2 HT2) Hr). }
+  assert (HF12 : Forall2 key_equiv F1 F2).
+  { clear - HF1 HF2. revert F2 HF2. induction HF1 as [|a b F1 S Hab _ IH]; intros F2 HF2;
+      inversion HF2; subst; constructor; [|now apply IH].
+    intros K. rewrite (Hab K). symmetry. auto. }
+  assert (HT12 : Forall2 (@Permutation req) t1 t2).
+  { eapply Forall2_perm_trans; [exact HT1|now apply Forall2_perm_sym]. }
   assert (AB : forall r, In r A <-> In r B).
-  { intros r. apply registration_members; [apply Permutation_refl|].
-    eapply Forall2_perm_trans; [exact T1|now apply Forall2_perm_sym]. }
+  { intros r. unfold A, B, registration_of. rewrite !in_flat_map.
+    split; intros (ph & Hph & Hr); exists ph; (split; [assumption|]); destruct ph as [k|k|k]; simpl in *; auto.
+    - apply (Permutation_in _ (nth_perm _ _ HT12 k) Hr).
+    - refine (key_equiv_members _ _ r _ Hr).
+      apply (nth_forall2 key_equiv F1 F2); [intros K; reflexivity|assumption].
+    - apply (Permutation_in _ (Permutation_sym (nth_perm _ _ HT12 k)) Hr).
+    - refine (key_equiv_members _ _ r _ Hr). apply key_equiv_sym.
+      apply (nth_forall2 key_equiv F1 F2); [intros K; reflexivity|assumption]. }
   assert (CA : consistentP A) by (apply (consistentP_incl (all_reqs P)); auto).
   assert (CB : consistentP B) by (apply (consistentP_incl (all_reqs P)); auto).
   destruct (in_dec Nat.eq_dec id (map r_id A)) as [Hin|Hout].
@@ -539,63 +593,161 @@ Proof.
       apply in_map_iff in Hin as (r & <- & Hr). apply in_map. now apply AB. }
   apply in_map_iff in Hin as (r & <- & HrA). assert (HrB : In r B) by now apply AB.
   rewrite (ident_by_key A r CA HrA), (ident_by_key B r CB HrB).
-  set (K := name_key r).
-  destruct (existsb (has_key K) (concat (p_sets P))) eqn:EX.
-  - (* the entity is requested in a set phase: it is alone with its name *)
-    apply existsb_exists in EX as (sr & Hsr & Hk). apply key_eqb_eq in Hk.
-    assert (NC : forall L, (forall x, In x L -> In x (all_reqs P)) -> noclashP (filter (has_key K) L)).
-    { intros L HL a b Ha Hb. apply filter_In in Ha as [Ha Ka]. apply filter_In in Hb as [Hb Kb].
-      apply key_eqb_eq in Ka, Kb. split.
-      - intros E. apply HC; auto.
-      - intros N. exfalso. apply N.
-        rewrite (HI sr a Hsr (HL a Ha)), (HI sr b Hsr (HL b Hb)); congruence. }
-    assert (RA : In r (filter (has_key K) A)) by (apply filter_In; split; [assumption|apply key_eqb_refl]).
-    assert (RB : In r (filter (has_key K) B)) by (apply filter_In; split; [assumption|apply key_eqb_refl]).
-    rewrite (noclash_ident _ (NC A InA) r RA), (noclash_ident _ (NC B InB) r RB). reflexivity.
-  - (* no set phase asks for this name: the requests for it are the same list in both runs *)
-    assert (NoK : forall t, Forall2 (@Permutation req) t (p_sets P) ->
-                   forall k, filter (has_key K) (nth k t []) = []).
-    { intros t Ht k. apply filter_nil_iff. intros x Hx.
-      apply (Permutation_in _ (nth_perm t (p_sets P) Ht k)) in Hx. apply nth_in_concat in Hx.
-      destruct (has_key K x) eqn:E; [|reflexivity].
-      assert (X : existsb (has_key K) (concat (p_sets P)) = true) by (apply existsb_exists; eauto).
-      congruence. }
-    assert (EQ : filter (has_key K) A = filter (has_key K) B).
-    { unfold A, B, registration_of. rewrite !filter_flat_map. apply flat_map_ext.
-      intros [k|k]; simpl; [reflexivity|]. now rewrite (NoK t1 T1 k), (NoK t2 T2 k). }
-    now rewrite EQ.
+  set (K := name_key r). unfold A, B. rewrite !registration_filter.
+  rewrite (fixed_filter_eq K F1 F2 HF12). f_equal.
+  apply (idset_irrelevant_of pl (map (filter_file K) enum) _ _ _ [] init).
+  - intros x [].
+  - intros k x Hx. rewrite nth_map_filter in Hx. apply filter_In in Hx as [Hx Kx].
+    change (@nil req) with (filter (has_key K) []). rewrite seen_before_filter.
+    apply filter_In. split; [|assumption]. exact (idsel_members pl enum (p_idsel P) t1 HT1 k x Hx).
+  - intros k x Hx. rewrite nth_map_filter in Hx. apply filter_In in Hx as [Hx Kx].
+    change (@nil req) with (filter (has_key K) []). rewrite seen_before_filter.
+    apply filter_In. split; [|assumption]. exact (idsel_members pl enum (p_idsel P) t2 HT2 k x Hx).
 Qed.
 
-Theorem set_order_irrelevant : forall P pi sigma1 sigma2,
-  consistentb P = true -> sets_isolatedb P = true ->
-  is_perm pi (length (p_files P)) ->
-  perms_ok (p_sets P) sigma1 -> perms_ok (p_sets P) sigma2 ->
-  idents P pi sigma1 = idents P pi sigma2.
+Lemma sorted_enum_perm P pi : is_perm pi (length (p_files P)) -> Permutation (sorted_enum P pi) (p_files P).
 Proof.
-  intros P pi s1 s2 HC HI Hp S1 S2. unfold idents, idents_enum. apply map_ext. intros id. f_equal.
-  unfold final_state, registration.
-  apply (set_order_irrelevant_of pipeline P); auto using sorted_enum_perm, enum_sets_perm.
+  intros H. unfold sorted_enum. eapply perm_trans; [apply Permutation_sym, isort_perm|now apply enumerate_perm].
 Qed.
 
-(* PARTIAL THEOREM: every order at once *)
-Theorem deterministic_partial : forall P pi1 pi2 sigma1 sigma2,
-  consistentb P = true -> sets_isolatedb P = true -> NoDup (map f_path (p_files P)) ->
+(* by-file phases: the order in which the set of source files is iterated does not matter *)
+Lemma sorted_enum_canonical P pi1 pi2 :
+  NoDup (map f_path (p_files P)) ->
   is_perm pi1 (length (p_files P)) -> is_perm pi2 (length (p_files P)) ->
-  perms_ok (p_sets P) sigma1 -> perms_ok (p_sets P) sigma2 ->
-  idents P pi1 sigma1 = idents P pi2 sigma2.
+  sorted_enum P pi1 = sorted_enum P pi2.
+Proof. intros. now apply sorted_enumeration_canonical. Qed.
+
+(* set-ordered phases and the free order inside the fixed phases *)
+Theorem set_order_irrelevant : forall P pi sigma1 sigma2 F1 F2,
+  consistentb P = true -> is_perm pi (length (p_files P)) ->
+  sigma_ok P pi sigma1 -> sigma_ok P pi sigma2 -> fixed_ok P F1 -> fixed_ok P F2 ->
+  idents P pi sigma1 F1 = idents P pi sigma2 F2.
 Proof.
-  intros P pi1 pi2 s1 s2 HC HI ND H1 H2 S1 S2.
-  rewrite (file_order_irrelevant P pi1 pi2 s1 ND H1 H2).
-  now apply set_order_irrelevant.
+  intros P pi s1 s2 F1 F2 HC Hp S1 S2 HF1 HF2. unfold idents, idents_enum. apply map_ext. intros id. f_equal.
+  unfold final_state, registration.
+  apply (run_deterministic_of pipeline P); auto using sorted_enum_perm.
+  - apply enum_sets_perm. exact S1.
+  - apply enum_sets_perm. exact S2.
+Qed.
+
+(* MAIN THEOREM: the full statement *)
+Theorem deterministic : forall P pi1 pi2 sigma1 sigma2 F1 F2,
+  consistentb P = true -> NoDup (map f_path (p_files P)) ->
+  is_perm pi1 (length (p_files P)) -> is_perm pi2 (length (p_files P)) ->
+  sigma_ok P pi1 sigma1 -> sigma_ok P pi2 sigma2 -> fixed_ok P F1 -> fixed_ok P F2 ->
+  idents P pi1 sigma1 F1 = idents P pi2 sigma2 F2.
+Proof.
+  intros P pi1 pi2 s1 s2 F1 F2 HC ND H1 H2 S1 S2 HF1 HF2.
+  assert (E : sorted_enum P pi1 = sorted_enum P pi2) by now apply sorted_enum_canonical.
+  assert (S2' : sigma_ok P pi1 s2) by (unfold sigma_ok, idsel in *; now rewrite E).
+  rewrite (set_order_irrelevant P pi1 s1 s2 F1 F2 HC H1 S1 S2' HF1 HF2).
+  unfold idents, idsel. now rewrite E.
+Qed.
+
+(* the same for any total, transitive order that separates the files *)
+Theorem sorted_is_canonical_gen : forall (leb : pfile -> pfile -> bool) P pi1 pi2 fixed idt,
+  total leb -> transitive leb -> antisym_on leb (p_files P) ->
+  is_perm pi1 (length (p_files P)) -> is_perm pi2 (length (p_files P)) ->
+  idents_enum P (isort leb (enumerate (p_files P) pi1)) fixed idt
+  = idents_enum P (isort leb (enumerate (p_files P) pi2)) fixed idt.
+Proof.
+  intros leb P pi1 pi2 fixed idt T R AS H1 H2. f_equal.
+  apply isort_perm_invariant; auto.
+  - eapply perm_trans; [now apply enumerate_perm|now apply Permutation_sym, enumerate_perm].
+  - intros a b Ha Hb.
+    apply AS; [exact (Permutation_in _ (enumerate_perm (p_files P) pi1 H1) Ha)
+              |exact (Permutation_in _ (enumerate_perm (p_files P) pi1 H1) Hb)].
+Qed.
+
+(* ------------------------------------------------------------------ the project's location *)
+
+Lemma lex_leb_prefix {A} (lt : A -> A -> bool) (irr : forall a, lt a a = false) p a b :
+  lex_leb lt (p ++ a) (p ++ b) = lex_leb lt a b.
+Proof. induction p as [|x p IH]; simpl; [reflexivity|]. now rewrite irr. Qed.
+
+Lemma file_leb_relocate root a b :
+  file_leb (relocate_file root a) (relocate_file root b) = file_leb a b.
+Proof.
+  unfold file_leb, relocate_file, path_leb. simpl.
+  apply lex_leb_prefix. exact (st_irrefl _ str_ltb_strict).
+Qed.
+
+Lemma insert_map {A B} (f : A -> B) (leb : A -> A -> bool) (leb' : B -> B -> bool) :
+  (forall a b, leb' (f a) (f b) = leb a b) ->
+  forall x l, insert leb' (f x) (map f l) = map f (insert leb x l).
+Proof.
+  intros H x l. induction l as [|y l IH]; simpl; [reflexivity|].
+  rewrite H. destruct (leb x y); simpl; [reflexivity|]. now rewrite IH.
+Qed.
+
+Lemma isort_map {A B} (f : A -> B) (leb : A -> A -> bool) (leb' : B -> B -> bool) :
+  (forall a b, leb' (f a) (f b) = leb a b) ->
+  forall l, isort leb' (map f l) = map f (isort leb l).
+Proof.
+  intros H l. induction l as [|x l IH]; simpl; [reflexivity|].
+  rewrite IH. now apply insert_map.
+Qed.
+
+Lemma enumerate_map {A B} (f : A -> B) (l : list A) pi : enumerate (map f l) pi = map f (enumerate l pi).
+Proof.
+  unfold enumerate. induction pi as [|i pi IH]; simpl; [reflexivity|].
+  rewrite map_app, IH. f_equal. rewrite nth_error_map. now destruct (nth_error l i).
+Qed.
+
+Lemma flat_map_map {A B C} (f : A -> B) (g : B -> list C) l : flat_map g (map f l) = flat_map (fun x => g (f x)) l.
+Proof. induction l as [|x l IH]; simpl; [reflexivity|]. now rewrite IH. Qed.
+
+Lemma seg_relocate root k f : seg k (relocate_file root f) = seg k f.
+Proof. reflexivity. Qed.
+
+Lemma registration_relocate pl root enum fixed idt :
+  registration_of pl (map (relocate_file root) enum) fixed idt = registration_of pl enum fixed idt.
+Proof.
+  unfold registration_of. apply flat_map_ext. intros [k|k|k]; simpl; try reflexivity.
+  rewrite flat_map_map. reflexivity.
+Qed.
+
+Lemma seen_before_relocate root pl enum k : forall acc,
+  seen_before pl (map (relocate_file root) enum) k acc = seen_before pl enum k acc.
+Proof.
+  induction pl as [|[j|j|j] pl IH]; intros acc; simpl; auto.
+  - rewrite flat_map_map. apply IH.
+  - destruct (Nat.eqb j k); auto.
+Qed.
+
+Lemma all_reqs_relocate root P : all_reqs (relocate root P) = all_reqs P.
+Proof. unfold all_reqs, relocate. simpl. now rewrite flat_map_map. Qed.
+
+Lemma sorted_enum_relocate root P pi :
+  sorted_enum (relocate root P) pi = map (relocate_file root) (sorted_enum P pi).
+Proof.
+  unfold sorted_enum, relocate. simpl p_files. rewrite enumerate_map.
+  apply isort_map. apply file_leb_relocate.
+Qed.
+
+(* moving the whole project (all source files below one root) changes nothing *)
+Theorem location_irrelevant : forall root P pi sigma F,
+  idents (relocate root P) pi sigma F = idents P pi sigma F.
+Proof.
+  intros root P pi sigma F. unfold idents, idsel. rewrite sorted_enum_relocate.
+  assert (E : idsel_of pipeline (map (relocate_file root) (sorted_enum P pi)) (p_idsel (relocate root P))
+              = idsel_of pipeline (sorted_enum P pi) (p_idsel P)).
+  { unfold idsel_of. change (p_idsel (relocate root P)) with (p_idsel P).
+    apply map_ext. intros k. now rewrite seen_before_relocate. }
+  rewrite E. unfold idents_enum, ent_ids. rewrite all_reqs_relocate.
+  apply map_ext. intros id. f_equal. unfold final_state, registration.
+  now rewrite registration_relocate.
 Qed.
 
 (* ================================================================== witnesses *)
 
 Definition segs_at (k : nat) (sg : list req) : list (list req) := repeat [] k ++ [sg].
+Definition segs_at2 (k1 : nat) (s1 : list req) (k2 : nat) (s2 : list req) : list (list req) :=
+  repeat [] k1 ++ [s1] ++ repeat [] (k2 - k1 - 1) ++ [s2].
 Definition mkr (id : nat) (d n : str) : req := {| r_id := id; r_dir := d; r_name := n |}.
 
 (* two files, each with one module that declares a variable x; everything is first requested
-   while the file's entities are converted from markdown (phase ByFile 7) *)
+   while the file's entities are converted from markdown (phase 7) *)
 Definition clash_project : project :=
   {| p_files :=
        [ {| f_path := [s "src"; s "a.f90"];
@@ -604,7 +756,7 @@ Definition clash_project : project :=
          {| f_path := [s "src"; s "b.f90"];
             f_segs := segs_at 7 [mkr 4 (s "sourcefile") (s "b.f90"); mkr 5 (s "module") (s "mb");
                                  mkr 6 (s "None") (s "x")] |} ];
-     p_sets := [] |}.
+     p_sets := []; p_idsel := [] |}.
 
 (* before 80d6c91 the two variables swapped "x" and "x~2" with the iteration order of the set ... *)
 Lemma clash_project_unsorted :
@@ -618,92 +770,75 @@ Proof. split; vm_compute; reflexivity. Qed.
 
 (* ... now a.f90 always comes first *)
 Lemma clash_project_sorted :
-  idents clash_project [0; 1] [] = idents clash_project [1; 0] [] /\
-  idents clash_project [1; 0] [] =
+  idents clash_project [0; 1] [] [] = idents clash_project [1; 0] [] [] /\
+  idents clash_project [1; 0] [] [] =
     [(1, Some (s "a.f90")); (2, Some (s "ma")); (3, Some (s "x"));
      (4, Some (s "b.f90")); (5, Some (s "mb")); (6, Some (s "x~2"))].
 Proof. split; vm_compute; reflexivity. Qed.
 
 Lemma clash_project_perms :
   is_perm [0; 1] (length (p_files clash_project)) /\ is_perm [1; 0] (length (p_files clash_project)) /\
-  perms_ok (p_sets clash_project) [] /\ no_clashb clash_project = false /\
-  consistentb clash_project = true /\ sets_isolatedb clash_project = true /\
   NoDup (map f_path (p_files clash_project)).
 Proof.
-  split; [apply Permutation_refl|]. split; [apply perm_swap|]. split; [constructor|].
-  split; [reflexivity|]. split; [reflexivity|]. split; [reflexivity|].
+  split; [apply Permutation_refl|]. split; [apply perm_swap|].
   simpl. repeat constructor; simpl; intuition discriminate.
 Qed.
 
-(* a project with competing names in the by-file phases AND a non-trivial toposort set: every
-   hypothesis of the partial theorem holds although no_clashb fails *)
-Definition partial_project : project :=
-  {| p_files :=
-       [ {| f_path := [s "src"; s "a.f90"];
-            f_segs := segs_at 7 [mkr 1 (s "sourcefile") (s "a.f90"); mkr 2 (s "module") (s "ma");
-                                 mkr 3 (s "None") (s "x")] |};
-         {| f_path := [s "src"; s "b.f90"];
-            f_segs := segs_at 7 [mkr 4 (s "sourcefile") (s "b.f90"); mkr 5 (s "module") (s "mb");
-                                 mkr 6 (s "None") (s "x"); mkr 3 (s "None") (s "x")] |} ];
-     p_sets := [[mkr 2 (s "module") (s "ma"); mkr 5 (s "module") (s "mb")]] |}.
-
-Example partial_project_ok :
-  no_clashb partial_project = false /\
-  consistentb partial_project = true /\ sets_isolatedb partial_project = true /\
-  is_perm [1; 0] (length (p_files partial_project)) /\
-  perms_ok (p_sets partial_project) [[1; 0]] /\
-  NoDup (map f_path (p_files partial_project)) /\
-  idents partial_project [1; 0] [[1; 0]] =
-    [(1, Some (s "a.f90")); (4, Some (s "b.f90")); (6, Some (s "x~2")); (3, Some (s "x"));
-     (2, Some (s "ma")); (5, Some (s "mb"))].
-Proof.
-  split; [reflexivity|]. split; [reflexivity|]. split; [reflexivity|]. split; [apply perm_swap|].
-  split; [repeat constructor; apply perm_swap|].
-  split; [|vm_compute; reflexivity].
-  simpl. repeat constructor; simpl; intuition discriminate.
-Qed.
-
-(* the same project with the variables renamed apart *)
-Definition noclash_project : project :=
-  {| p_files :=
-       [ {| f_path := [s "src"; s "a.f90"];
-            f_segs := segs_at 7 [mkr 1 (s "sourcefile") (s "a.f90"); mkr 2 (s "module") (s "ma");
-                                 mkr 3 (s "None") (s "x")] |};
-         {| f_path := [s "src"; s "b.f90"];
-            f_segs := segs_at 7 [mkr 4 (s "sourcefile") (s "b.f90"); mkr 5 (s "module") (s "mb");
-                                 mkr 6 (s "None") (s "y"); mkr 3 (s "None") (s "x")] |} ];
-     p_sets := [[mkr 2 (s "module") (s "ma"); mkr 5 (s "module") (s "mb")]] |}.
-
-Example noclash_project_ok :
-  no_clashb noclash_project = true /\
-  is_perm [1; 0] (length (p_files noclash_project)) /\
-  perms_ok (p_sets noclash_project) [[1; 0]] /\
-  idents noclash_project [1; 0] [[1; 0]] =
-    [(1, Some (s "a.f90")); (4, Some (s "b.f90")); (6, Some (s "y")); (3, Some (s "x"));
-     (2, Some (s "ma")); (5, Some (s "mb"))].
-Proof.
-  split; [reflexivity|]. split; [apply perm_swap|]. split; [repeat constructor; apply perm_swap|].
-  vm_compute; reflexivity.
-Qed.
-
-(* THE refutation of the full statement: two equally named modules that sit in one level of the
-   toposort are numbered in the iteration order of a set of objects hashed by id *)
-Definition modclash_project : project :=
+(* two modules named m in two files, in one level of the toposort.
+   Before the toposort repair: the toposort (a free set) is the first to ask for their identifiers *)
+Definition twins_before : project :=
   {| p_files :=
        [ {| f_path := [s "src"; s "a.f90"]; f_segs := segs_at 7 [mkr 1 (s "module") (s "m")] |};
          {| f_path := [s "src"; s "b.f90"]; f_segs := segs_at 7 [mkr 2 (s "module") (s "m")] |} ];
-     p_sets := [[mkr 1 (s "module") (s "m"); mkr 2 (s "module") (s "m")]] |}.
+     p_sets := [[mkr 1 (s "module") (s "m"); mkr 2 (s "module") (s "m")]]; p_idsel := [] |}.
 
-Lemma modclash_differs :
-  is_perm [0; 1] (length (p_files modclash_project)) /\
-  perms_ok (p_sets modclash_project) [[0; 1]] /\ perms_ok (p_sets modclash_project) [[1; 0]] /\
-  sets_isolatedb modclash_project = false /\ consistentb modclash_project = true /\
-  idents modclash_project [0; 1] [[0; 1]] = [(1, Some (s "m")); (2, Some (s "m~2"))] /\
-  idents modclash_project [0; 1] [[1; 0]] = [(1, Some (s "m~2")); (2, Some (s "m"))].
+Lemma twins_before_differ :
+  is_perm [0; 1] (length (p_files twins_before)) /\
+  perms_ok (p_sets twins_before) [[0; 1]] /\ perms_ok (p_sets twins_before) [[1; 0]] /\
+  idents_free_sets twins_before [0; 1] [[0; 1]] = [(1, Some (s "m")); (2, Some (s "m~2"))] /\
+  idents_free_sets twins_before [0; 1] [[1; 0]] = [(1, Some (s "m~2")); (2, Some (s "m"))].
 Proof.
   split; [apply Permutation_refl|].
   split; [repeat constructor; apply Permutation_refl|]. split; [repeat constructor; apply perm_swap|].
-  split; [reflexivity|]. split; [reflexivity|]. split; vm_compute; reflexivity.
+  split; vm_compute; reflexivity.
+Qed.
+
+(* After it: the loop over project.modules (phase 45) asks first, in file order; the toposort (id-set
+   phase 0, entities 1 and 2) and everything later find the identifiers assigned.  Also a variable x
+   in each file, and a type requested in the rank-ordered loop (fixed phase 1). *)
+Definition twins_project : project :=
+  {| p_files :=
+       [ {| f_path := [s "src"; s "a.f90"];
+            f_segs := segs_at2 7 [mkr 1 (s "module") (s "m"); mkr 3 (s "None") (s "x")]
+                               45 [mkr 1 (s "module") (s "m")] |};
+         {| f_path := [s "src"; s "b.f90"];
+            f_segs := segs_at2 7 [mkr 2 (s "module") (s "m"); mkr 4 (s "None") (s "x");
+                                  mkr 5 (s "type") (s "t")]
+                               45 [mkr 2 (s "module") (s "m")] |} ];
+     p_sets := [[]; [mkr 5 (s "type") (s "t")]];
+     p_idsel := [[1; 2]] |}.
+
+Example twins_project_ok :
+  NoDup (map f_path (p_files twins_project)) /\
+  is_perm [1; 0] (length (p_files twins_project)) /\
+  idsel twins_project [1; 0] = [[mkr 1 (s "module") (s "m"); mkr 2 (s "module") (s "m")]] /\
+  sigma_ok twins_project [1; 0] [[1; 0]] /\ sigma_ok twins_project [0; 1] [[0; 1]] /\
+  fixed_ok twins_project (p_sets twins_project) /\ consistentb twins_project = true /\
+  idents twins_project [1; 0] [[1; 0]] (p_sets twins_project)
+    = idents twins_project [0; 1] [[0; 1]] (p_sets twins_project) /\
+  idents twins_project [1; 0] [[1; 0]] (p_sets twins_project) =
+    [(3, Some (s "x")); (1, Some (s "m")); (4, Some (s "x~2")); (2, Some (s "m~2")); (5, Some (s "t"))].
+Proof.
+  assert (E1 : idsel twins_project [1; 0] = [[mkr 1 (s "module") (s "m"); mkr 2 (s "module") (s "m")]])
+    by (vm_compute; reflexivity).
+  assert (E0 : idsel twins_project [0; 1] = [[mkr 1 (s "module") (s "m"); mkr 2 (s "module") (s "m")]])
+    by (vm_compute; reflexivity).
+  split; [simpl; repeat constructor; simpl; intuition discriminate|].
+  split; [apply perm_swap|]. split; [exact E1|].
+  split; [unfold sigma_ok; rewrite E1; repeat constructor; apply perm_swap|].
+  split; [unfold sigma_ok; rewrite E0; repeat constructor; apply Permutation_refl|].
+  split; [repeat constructor; intros K; reflexivity|]. split; [vm_compute; reflexivity|].
+  split; vm_compute; reflexivity.
 Qed.
 
 (* ================================================================== other sets *)
@@ -715,19 +850,38 @@ Proof.
   - now apply Permutation_length_1_inv, Permutation_sym.
 Qed.
 
-Theorem uses_partial : forall uses pi1 pi2,
-  length uses <= 1 -> is_perm pi1 (length uses) -> is_perm pi2 (length uses) ->
+
+Lemma use_leb_total : total use_leb.
+Proof. intros a b. apply path_leb_total. Qed.
+Lemma use_leb_trans : transitive use_leb.
+Proof. intros a b c. apply path_leb_trans. Qed.
+Lemma use_leb_antisym a b : use_leb a b = true -> use_leb b a = true -> a = b.
+Proof. intros H1 H2. pose proof (path_leb_antisym _ _ H1 H2) as E. now injection E. Qed.
+
+(* the "Uses" list is rendered in an order that is a function of the set *)
+Theorem uses_sorted : forall uses pi1 pi2,
+  is_perm pi1 (length uses) -> is_perm pi2 (length uses) ->
   shown_uses uses pi1 = shown_uses uses pi2.
 Proof.
-  intros uses pi1 pi2 L H1 H2. unfold shown_uses.
-  rewrite (perm_short uses _ L (enumerate_perm uses pi1 H1)).
-  now rewrite (perm_short uses _ L (enumerate_perm uses pi2 H2)).
+  intros uses pi1 pi2 H1 H2. unfold shown_uses.
+  apply isort_perm_invariant; [apply use_leb_total|apply use_leb_trans| |].
+  - eapply perm_trans; [now apply enumerate_perm|now apply Permutation_sym, enumerate_perm].
+  - intros a b _ _. apply use_leb_antisym.
 Qed.
 
-Lemma uses_refuted_witness :
+Example uses_example :
+  shown_uses [s "mb"; s "iso_c_binding"; s "Ma"; s "ma"; s "MB"] [4; 2; 0; 3; 1]
+  = [s "iso_c_binding"; s "Ma"; s "ma"; s "MB"; s "mb"].
+Proof. vm_compute. reflexivity. Qed.
+
+(* what the repair repaired: in set order the list depends on the permutation *)
+Lemma uses_unsorted_witness :
   is_perm [0; 1] 2 /\ is_perm [1; 0] 2 /\
-  shown_uses [s "ma"; s "mb"] [0; 1] <> shown_uses [s "ma"; s "mb"] [1; 0].
-Proof. split; [apply Permutation_refl|]. split; [apply perm_swap|]. vm_compute. discriminate. Qed.
+  shown_uses_unsorted [s "ma"; s "mb"] [0; 1] <> shown_uses_unsorted [s "ma"; s "mb"] [1; 0] /\
+  shown_uses [s "ma"; s "mb"] [0; 1] = shown_uses [s "ma"; s "mb"] [1; 0].
+Proof.
+  split; [apply Permutation_refl|]. split; [apply perm_swap|]. split; [vm_compute; discriminate|reflexivity].
+Qed.
 
 Theorem graph_emission_sorted : forall nodes pi1 pi2,
   is_perm pi1 (length nodes) -> is_perm pi2 (length nodes) ->
@@ -768,6 +922,40 @@ Proof.
   apply (perm_trans (l' := [2; 0; 1; 3])).
   - apply (perm_trans (l' := [0; 2; 1; 3])); [apply perm_skip, perm_swap|apply perm_swap].
   - do 2 apply perm_skip. apply perm_swap.
+Qed.
+
+(* the rows of the table that replaces an oversized graph are a function of the set of neighbours *)
+Theorem table_rows_sorted : forall neighbours pi1 pi2,
+  NoDup (map fst neighbours) ->
+  is_perm pi1 (length neighbours) -> is_perm pi2 (length neighbours) ->
+  emit_table_rows neighbours pi1 = emit_table_rows neighbours pi2.
+Proof.
+  intros nb pi1 pi2 ND H1 H2. unfold emit_table_rows. f_equal.
+  apply isort_perm_invariant.
+  - intros a b. apply str_leb_total.
+  - intros a b c. apply str_leb_trans.
+  - eapply perm_trans; [now apply enumerate_perm|now apply Permutation_sym, enumerate_perm].
+  - intros a b Ha Hb L1 L2.
+    apply (Permutation_in _ (enumerate_perm nb pi1 H1)) in Ha, Hb.
+    apply (NoDup_map_inj_in fst nb); auto. now apply str_leb_antisym.
+Qed.
+
+Example table_rows_example :
+  emit_table_rows [(s "proc~init~2", s "init"); (s "proc~alpha", s "Alpha"); (s "proc~init", s "init");
+                   (s "proc~init~3", s "Init")] [3; 0; 2; 1]
+  = [(s "proc~alpha", s "Alpha"); (s "proc~init", s "init"); (s "proc~init~2", s "init");
+     (s "proc~init~3", s "Init")].
+Proof. vm_compute. reflexivity. Qed.
+
+(* sorting the set by label alone would leave equally labelled neighbours in set order *)
+Lemma table_rows_from_set_refuted :
+  exists neighbours pi1 pi2,
+    NoDup (map fst neighbours) /\ is_perm pi1 (length neighbours) /\ is_perm pi2 (length neighbours) /\
+    emit_table_rows_from_set neighbours pi1 <> emit_table_rows_from_set neighbours pi2.
+Proof.
+  exists [(s "proc~init", s "init"); (s "proc~init~2", s "init")], [0; 1], [1; 0].
+  split; [simpl; repeat constructor; simpl; intuition discriminate|].
+  split; [apply Permutation_refl|]. split; [apply perm_swap|]. vm_compute. intros H. discriminate H.
 Qed.
 
 (* ================================================================== writeout *)
@@ -823,7 +1011,7 @@ Lemma merge_refuted_witness :
   /\ restrict out (writeout out pages stale) = [([s "doc"; s "index.html"], s "new")].
 Proof. cbv zeta. split; [vm_compute; discriminate|]. split; vm_compute; reflexivity. Qed.
 
-(* ================================================================== refutations of the full statements *)
+(* ================================================================== refutations (pre-repair pipelines, merging) *)
 
 Lemma merge_refuted :
   exists out pages fs1 fs2,
@@ -833,18 +1021,7 @@ Proof.
   vm_compute. discriminate.
 Qed.
 
-Lemma statement_refuted :
-  ~ (forall P pi1 pi2 sigma1 sigma2,
-       is_perm pi1 (length (p_files P)) -> is_perm pi2 (length (p_files P)) ->
-       perms_ok (p_sets P) sigma1 -> perms_ok (p_sets P) sigma2 ->
-       idents P pi1 sigma1 = idents P pi2 sigma2).
-Proof.
-  intros H. destruct modclash_differs as (P1 & S1 & S2 & _ & _ & E1 & E2).
-  specialize (H modclash_project [0; 1] [0; 1] [[0; 1]] [[1; 0]] P1 P1 S1 S2).
-  rewrite E1, E2 in H. discriminate.
-Qed.
-
-(* what 80d6c91 repaired: without the sort the file order alone refutes the statement *)
+(* what 80d6c91 repaired: without the sort the file order alone decides identifiers *)
 Lemma unsorted_statement_refuted :
   ~ (forall P pi1 pi2 sigma,
        is_perm pi1 (length (p_files P)) -> is_perm pi2 (length (p_files P)) ->
@@ -852,14 +1029,28 @@ Lemma unsorted_statement_refuted :
 Proof.
   intros H. destruct clash_project_perms as (P1 & P2 & _).
   specialize (H clash_project [0; 1] [1; 0] [] P1 P2).
-  destruct clash_project_unsorted as [E1 E2]. rewrite E1, E2 in H. discriminate.
+  destruct clash_project_unsorted as [E1 E2]. rewrite E1, E2 in H.
+  apply (f_equal (fun l => nth 2 l (0, None))) in H. vm_compute in H. discriminate H.
 Qed.
 
-Lemma uses_statement_refuted :
-  ~ (forall uses pi1 pi2, is_perm pi1 (length uses) -> is_perm pi2 (length uses) ->
-       shown_uses uses pi1 = shown_uses uses pi2).
+(* what the toposort repair repaired: a set-ordered loop that is the first to ask *)
+Lemma free_sets_statement_refuted :
+  ~ (forall P pi sigma1 sigma2,
+       is_perm pi (length (p_files P)) ->
+       perms_ok (p_sets P) sigma1 -> perms_ok (p_sets P) sigma2 ->
+       idents_free_sets P pi sigma1 = idents_free_sets P pi sigma2).
 Proof.
-  intros H. destruct uses_refuted_witness as (P1 & P2 & N).
+  intros H. destruct twins_before_differ as (P1 & S1 & S2 & E1 & E2).
+  specialize (H twins_before [0; 1] [[0; 1]] [[1; 0]] P1 S1 S2).
+  rewrite E1, E2 in H.
+  apply (f_equal (fun l => nth 0 l (0, None))) in H. vm_compute in H. discriminate H.
+Qed.
+
+Lemma uses_unsorted_refuted :
+  ~ (forall uses pi1 pi2, is_perm pi1 (length uses) -> is_perm pi2 (length uses) ->
+       shown_uses_unsorted uses pi1 = shown_uses_unsorted uses pi2).
+Proof.
+  intros H. destruct uses_unsorted_witness as (P1 & P2 & N & _).
   exact (N (H [s "ma"; s "mb"] [0; 1] [1; 0] P1 P2)).
 Qed.
 
